@@ -61,13 +61,13 @@ def ensure_gosum():
         f.write(content)
 
 
-def build(race=False, tag=""):
+def build(race=False, fuzz=False):
     """Compile the checks package against /repo's current working tree."""
     go, env = goenv()
     ensure_gosum()
     outdir = os.path.join(BUILD, "%d" % os.getpid())
     os.makedirs(outdir, exist_ok=True)
-    out = os.path.join(outdir, "checks-race.test" if race else "checks.test")
+    out = os.path.join(outdir, "checks-race.test" if race else ("checks-fuzz.test" if fuzz else "checks.test"))
     if os.path.exists(out):
         return out
     cmd = [go, "test", "-c", "-tags", "verif", "-o", out]
@@ -82,6 +82,8 @@ def build(race=False, tag=""):
         cmd.append("-modfile=" + modfile)
     if race:
         cmd.append("-race")
+    if fuzz:
+        cmd.append("-fuzz=Fuzz")  # coverage instrumentation for the native fuzzer
     cmd.append("./checks")
     t0 = time.time()
     p = subprocess.run(cmd, cwd=HARNESS, env=env, stdout=subprocess.PIPE, stderr=subprocess.STDOUT, text=True)
@@ -127,6 +129,10 @@ def run_unit(binary, unit, tier, seed, shard, nshards, outdir, extra_env=None):
     cmd = [binary, "-test.run", unit["run"], "-test.v", "-test.timeout", "%ds" % timeout,
            "-rapid.checks=%d" % checks, "-rapid.seed=%d" % rseed, "-rapid.shrinktime=%s" % unit.get("shrink", "20s"),
            "-rapid.nofailfile"]
+    if unit.get("fuzz"):
+        cmd = [binary, "-test.run", "^$", "-test.fuzz", "^%s$" % unit["fuzz"], "-test.fuzztime", unit.get("fuzztime", "60s"),
+               "-test.fuzzcachedir", os.path.join(outdir, "fuzzcache"), "-test.parallel", str(unit.get("workers", NCPU)),
+               "-test.timeout", "%ds" % timeout]
     log = open(os.path.join(outdir, "log.txt"), "w")
     p = subprocess.Popen(cmd, cwd=outdir, env=env, stdout=log, stderr=subprocess.STDOUT)
     p._verif = dict(unit=unit, checks=checks, outdir=outdir, log=log, timeout=timeout, t0=time.time(), shard=shard)
@@ -151,8 +157,17 @@ def wait_all(procs):
 PASS_RE = re.compile(r"\[rapid\] OK, passed (\d+) tests")
 
 
+FUZZ_RE = re.compile(r"execs: (\d+) .*?\(total: (\d+)\)")
+
+
 def classify(rc, text, info):
     """-> ('pass'|'fail'|'inconclusive', reason)"""
+    if info["unit"].get("fuzz"):
+        if rc == 0:
+            return "pass", ""
+        if "Failing input written to" in text or "--- FAIL" in text:
+            return "fail", "fuzz target %s found a failing input" % info["unit"]["fuzz"]
+        return "inconclusive", "fuzz run exited with %d" % rc
     if rc == 0:
         if "no tests to run" in text or not re.search(r"^(=== RUN|--- PASS|ok|PASS)", text, re.M):
             return "inconclusive", "no test matched %s" % info["unit"]["run"]
@@ -211,6 +226,18 @@ def merge_evidence(pid, tier, seed, outdirs, wall, violations, cfg, notes):
             elif fn.startswith("hashes-") and fn.endswith(".bin"):
                 b = open(os.path.join(d, fn), "rb").read()
                 hashes.update(struct.unpack("<%dQ" % (len(b) // 8), b))
+    fuzz_execs, fuzz_interesting = 0, 0
+    for d in outdirs:
+        lp = os.path.join(d, "log.txt")
+        if os.path.isdir(os.path.join(d, "fuzzcache")) and os.path.exists(lp):
+            m = FUZZ_RE.findall(open(lp, errors="replace").read())
+            if m:
+                fuzz_execs += int(m[-1][0])
+                fuzz_interesting += int(m[-1][1])
+    if fuzz_execs:
+        evals += fuzz_execs
+        extra["fuzz_execs"] = fuzz_execs
+        extra["fuzz_corpus_entries_with_new_coverage"] = fuzz_interesting
     cov = {
         "evaluations": evals,
         "distinct_nontrivial": len(hashes) + extra_distinct,
@@ -233,17 +260,32 @@ def merge_evidence(pid, tier, seed, outdirs, wall, violations, cfg, notes):
         "wall_s": round(wall, 2),
         "violations": violations,
     }
-    os.makedirs(os.path.join(ROOT, "evidence"), exist_ok=True)
-    tmp = os.path.join(ROOT, "evidence", ".%s.json.tmp%d" % (pid, os.getpid()))
+    evdir = os.path.join(ROOT, "evidence")
+    if os.environ.get("VERIF_REPO"):
+        evdir = os.path.join(RUNS, "alt-evidence")  # sensitivity runs never touch the real evidence
+    os.makedirs(evdir, exist_ok=True)
+    tmp = os.path.join(evdir, ".%s.json.tmp%d" % (pid, os.getpid()))
     with open(tmp, "w") as f:
         json.dump(ev, f, indent=1)
-    os.replace(tmp, os.path.join(ROOT, "evidence", pid + ".json"))
+    os.replace(tmp, os.path.join(evdir, pid + ".json"))
     return ev
 
 
 def store_replay(pid, outdir):
     """Copy the failing case written by the property into replays/; returns path or None."""
     best = None
+    fz = os.path.join(outdir, "testdata", "fuzz")
+    if os.path.isdir(fz):
+        for target in os.listdir(fz):
+            for fn in os.listdir(os.path.join(fz, target)):
+                dstdir = os.path.join(ROOT, "replays", pid)
+                if os.environ.get("VERIF_REPO"):
+                    dstdir = os.path.join(RUNS, "alt-replays", pid)
+                os.makedirs(dstdir, exist_ok=True)
+                dst = os.path.join(dstdir, "%s-%s.fuzz" % (target, fn))
+                shutil.copy(os.path.join(fz, target, fn), dst)
+                shutil.copy(os.path.join(outdir, "log.txt"), dst + ".log")
+                return dst
     for name in ("fail-%s-last.json" % pid, "fail-%s-smallest.json" % pid):
         p = os.path.join(outdir, name)
         if os.path.exists(p):
@@ -260,6 +302,8 @@ def store_replay(pid, outdir):
                 best = os.path.join(outdir, fn)
                 break
     dstdir = os.path.join(ROOT, "replays", pid)
+    if os.environ.get("VERIF_REPO"):
+        dstdir = os.path.join(RUNS, "alt-replays", pid)
     os.makedirs(dstdir, exist_ok=True)
     if best is None:
         # keep the log so that there is something to look at
@@ -311,6 +355,25 @@ def main():
         print("setup ok:", b)
         cleanup_build()
         return 0
+    if args[0] == "--replay" and args[1].endswith(".fuzz"):
+        # a crasher saved by a native fuzz target: file name is <Target>-<hash>.fuzz
+        target = os.path.basename(args[1]).split("-")[0]
+        binary = build()
+        d = os.path.join(RUNS, "fuzzreplay-%d" % os.getpid(), "testdata", "fuzz", target)
+        os.makedirs(d, exist_ok=True)
+        shutil.copy(args[1], os.path.join(d, "crasher"))
+        _, env = goenv()
+        env["VERIF_ROOT"] = ROOT
+        p = subprocess.run([binary, "-test.run", "^%s$/crasher" % target, "-test.v"], cwd=os.path.dirname(os.path.dirname(os.path.dirname(d))),
+                           env=env, stdout=subprocess.PIPE, stderr=subprocess.STDOUT, text=True)
+        print(p.stdout[-4000:])
+        shutil.rmtree(os.path.join(RUNS, "fuzzreplay-%d" % os.getpid()), ignore_errors=True)
+        cleanup_build()
+        if p.returncode != 0:
+            print("VIOLATION property=? replay=%s" % os.path.abspath(args[1]))
+            return 1
+        print("replay: case passes")
+        return 0
     if args[0] == "--replay":
         binary = build()
         case = {}
@@ -342,6 +405,8 @@ def main():
     need_plain = any(not u.get("race") for u in cfg["units"]) or True
     binary = build() if need_plain else None
     race_binary = build(race=True) if need_race else None
+    need_fuzz = tier == "thorough" and any(u.get("fuzz") for u in cfg["units"])
+    fuzz_binary = build(fuzz=True) if need_fuzz else None
 
     # known findings: replay each open witness for this property
     known = load_known()
@@ -367,7 +432,9 @@ def main():
         if tier == "quick" and unit.get("thorough_only"):
             continue
         b = race_binary if unit.get("race") else binary
-        n = 1 if (tier == "quick" or unit.get("single")) else nshards
+        if unit.get("fuzz"):
+            b = fuzz_binary
+        n = 1 if (tier == "quick" or unit.get("single") or unit.get("fuzz")) else nshards
         for sh in range(n):
             od = os.path.join(rundir, "u%d-s%d" % (ui, sh))
             outdirs.append(od)
